@@ -88,7 +88,10 @@ def run_case(ctx, case):
                     goal = False
                 elif cls == "DecimalError::DivisionByZero":
                     goal = (T.I(y) == 0)
-                elif cls == "DecimalError::InternalOverflow":
+                elif cls in ("DecimalError::InternalOverflow", "overflow"):
+                    # "overflow signal (panic / None)": the operator may panic with the crate's InternalOverflow or with rustc's
+                    # arithmetic-overflow check, but only where the up-scaled dividend really leaves the i128 range (that the
+                    # unchecked build then agrees is C20's concern)
                     goal = ovf
                 else:
                     goal = False
